@@ -2,7 +2,11 @@ package props
 
 import (
 	"bytes"
+	"encoding/json"
 	"fmt"
+	"os"
+	"os/exec"
+	"path/filepath"
 	"runtime"
 	"strings"
 	"sync"
@@ -32,6 +36,9 @@ type c20Case struct {
 	Goroutines int     `json:"goroutines"`
 	Release    []int   `json:"release"` // order in which the goroutines are released
 	Rounds     int     `json:"rounds"`
+	// Cold: run in a process of its own in which the concurrent calls are the very first calls into the package
+	// (whatever the package initialises lazily is then initialised under contention)
+	Cold bool `json:"cold,omitempty"`
 }
 
 func init() { register("c20", checkC20) }
@@ -106,16 +113,81 @@ func applyTransform(b *builtList, name string, d time.Duration, cues []cueSpec) 
 	}
 }
 
+// checkC20Cold re-executes the test binary on the case; the child runs the concurrent phase before anything else.
+func checkC20Cold(c c20Case) string {
+	dir, err := os.MkdirTemp("", "c20cold")
+	if err != nil {
+		return ""
+	}
+	defer os.RemoveAll(dir)
+	b, _ := json.Marshal(c)
+	p := filepath.Join(dir, "case.json")
+	if os.WriteFile(p, b, 0o644) != nil {
+		return ""
+	}
+	cmd := exec.Command(os.Args[0], "-test.run", "^TestC20Child$", "-test.count", "1", "-test.v")
+	env := []string{"VERIF_C20_CASE=" + p, "GORACE=halt_on_error=1 exitcode=66", "VERIF_FRAG=", "VERIF_REPLAY_OUT="}
+	for _, e := range os.Environ() {
+		if !strings.HasPrefix(e, "GORACE=") && !strings.HasPrefix(e, "VERIF_FRAG=") && !strings.HasPrefix(e, "VERIF_REPLAY_OUT=") {
+			env = append(env, e)
+		}
+	}
+	cmd.Env = env
+	out, runErr := cmd.CombinedOutput()
+	if i := bytes.Index(out, []byte("C20CHILD-RESULT:")); i >= 0 {
+		rest := out[i+len("C20CHILD-RESULT:"):]
+		if j := bytes.IndexByte(rest, '\n'); j >= 0 {
+			rest = rest[:j]
+		}
+		var msg string
+		if json.Unmarshal(rest, &msg) == nil && !bytes.Contains(out, []byte("WARNING: DATA RACE")) {
+			return msg
+		}
+	}
+	if i := bytes.Index(out, []byte("WARNING: DATA RACE")); i >= 0 {
+		return "data race when the concurrent calls are the first calls of the process:\n" + hexRe.ReplaceAllString(clip(string(out[i:]), 1800), "")
+	}
+	return fmt.Sprintf("the process running the calls as its first calls died (%v):\n%s", runErr, clip(string(out), 800))
+}
+
+// TestC20Child is the body of that process.
+func TestC20Child(t *testing.T) {
+	p := os.Getenv("VERIF_C20_CASE")
+	if p == "" {
+		t.Skip("not a child")
+	}
+	b, err := os.ReadFile(p)
+	if err != nil {
+		t.Fatal(err)
+	}
+	var c c20Case
+	if err := json.Unmarshal(b, &c); err != nil {
+		t.Fatal(err)
+	}
+	msg, _ := json.Marshal(checkC20(c))
+	fmt.Printf("\nC20CHILD-RESULT:%s\n", msg)
+}
+
 func checkC20(c c20Case) string {
+	if c.Cold && os.Getenv("VERIF_C20_CASE") == "" {
+		return checkC20Cold(c)
+	}
 	restore := astisub.Now
 	astisub.Now = func() time.Time { return c19NowA }
 	defer func() { astisub.Now = restore }()
 	want := make([]string, len(c.Ops))
+	if c.Cold {
+		// the concurrent phase comes first; the sequential reference is taken afterwards
+		want = nil
+	}
 	for i, o := range c.Ops {
+		if want == nil {
+			break
+		}
 		want[i] = o.run()
 	}
 	// "alone" must not depend on what ran before: the same calls, one after the other, in the opposite order
-	for i := len(c.Ops) - 1; i >= 0; i-- {
+	for i := len(c.Ops) - 1; i >= 0 && want != nil; i-- {
 		if again := c.Ops[i].run(); again != want[i] {
 			return fmt.Sprintf("operation %d (%s %s%s) returned a different result when the same calls were made one after the other in the opposite order: state is kept between calls\n--- first ---\n%s\n--- then ---\n%s",
 				i, c.Ops[i].Kind, c.Ops[i].Format, c.Ops[i].Name, clip(want[i], 500), clip(again, 500))
@@ -160,6 +232,12 @@ func checkC20(c c20Case) string {
 			}
 		}
 		wg.Wait()
+		if want == nil {
+			want = make([]string, len(c.Ops))
+			for i, o := range c.Ops {
+				want[i] = o.run()
+			}
+		}
 		for i := range want {
 			if got[i] != want[i] {
 				return fmt.Sprintf("operation %d (%s %s%s) returned a different result when run concurrently with %d other operations on %d goroutines (round %d)\n--- alone ---\n%s\n--- concurrent ---\n%s",
@@ -232,6 +310,23 @@ func TestC20(t *testing.T) {
 			}
 			ev.Sample("multiset", map[string]any{"ops": descr, "goroutines": c.Goroutines, "release": c.Release, "rounds": c.Rounds})
 		}
+		verdict(rt, "C20", "c20", c, checkC20)
+	})
+	// cold start: each case in a fresh process whose first calls into the package are the concurrent ones
+	rapidCheck(t, "C20/cold-start", tier(6, 200), func(rt *rapid.T) {
+		c := c20Case{Goroutines: rapid.IntRange(4, 16).Draw(rt, "goroutines"), Rounds: 1, Cold: true}
+		var pool []c20Op
+		for i := rapid.IntRange(2, 4).Draw(rt, "distinct"); i > 0; i-- {
+			pool = append(pool, genC20Op(rt))
+		}
+		// the writers with lazily built tables are always part of it
+		g := genGL(rt, false)
+		pool = append(pool, c20Op{Kind: "write", Format: "stl", Spec: &g}, c20Op{Kind: "write", Format: "ttml", Spec: &g})
+		for i := rapid.IntRange(8, 32).Draw(rt, "nops"); i > 0; i-- {
+			c.Ops = append(c.Ops, pool[rapid.IntRange(0, len(pool)-1).Draw(rt, "pick")])
+		}
+		c.Release = genPerm(rt, c.Goroutines, "release")
+		ev.Case(true, fmt.Sprintf("%v", c), "cold-start")
 		verdict(rt, "C20", "c20", c, checkC20)
 	})
 }
